@@ -1,8 +1,9 @@
 """C05 helpers: build real qupulse templates / transformations from the JSON case description, run create_program with
 and without the options, and observe what is played (leaf walk), the measurement windows and the duration.
 
-JSON tree nodes (all numbers are strings of exact fractions; inside a for-loop body a number may be
-[const, index_name, coefficient] meaning const + index*coefficient):
+JSON tree nodes (all numbers are strings of exact fractions; a number may also be an affine expression
+[const, name1, coefficient1, name2, coefficient2, ...] = const + sum name_j*coefficient_j over loop indices ('i','j','l')
+and top-level parameters ('p','q'); names are resolved by the scope that reaches the node):
   {'k':'const','id':name|None,'dur':num,'vals':{ch:num},'meas':[[name,begin,len]]}
   {'k':'table','id':..,'entries':{ch:[[t,v,'hold'|'linear'|'jump'],...]},'meas':[...]}
   {'k':'func','id':..,'ch':ch,'dur':num,'a':num,'b':num,'meas':[...]}      FunctionPT('a*t + b', dur, ch); a, b per real time
@@ -10,7 +11,9 @@ JSON tree nodes (all numbers are strings of exact fractions; inside a for-loop b
   {'k':'seq','id':..,'meas':[...],'subs':[node...]}
   {'k':'rep','id':..,'meas':[...],'n':int,'body':node}
   {'k':'for','id':..,'meas':[...],'idx':'i','range':[a,b,s],'body':node}
-  {'k':'map','id':..,'chmap':{inner:outer},'mmap':{inner_name:outer_name} (optional),'sub':node}
+  {'k':'map','id':..,'chmap':{inner:outer},'mmap':{inner_name:outer_name} (optional),
+   'pmap':{inner_parameter: number|expression over the OUTER names} (optional; may rebind a name to an expression of
+   itself, swap two names, ...),'sub':node}
   {'k':'par','id':..,'ov':{ch:num},'sub':node}
   {'k':'arith','id':..,'op':'+'|'-'|'*'|'/','side':'l'|'r','scalar':num|{ch:num},'sub':node}   side = where the PT stands
   {'k':'rev','id':..,'sub':node}
@@ -26,12 +29,25 @@ import vlib
 F = fractions.Fraction
 
 
+def terms(x):
+    """[(name, coefficient)] of a JSON number"""
+    return [(x[i], F(x[i + 1])) for i in range(1, len(x), 2)] if isinstance(x, list) else []
+
+
 def num(x, env=None):
-    """exact value of a JSON number under the loop-index environment"""
+    """exact value of a JSON number under the environment name -> value (harness-side evaluation: used for budget and
+    validity checks of generated cases only, never for the comparison)"""
     if isinstance(x, list):
-        c, idx, k = x
-        return F(c) + F((env or {})[idx]) * F(k)
+        return F(x[0]) + sum(F((env or {})[n]) * k for n, k in terms(x))
     return F(x)
+
+
+def map_env(node, env):
+    """environment below a MappingPT node: mapped names evaluated in the outer environment, others pass through"""
+    pm = node.get('pmap') or {}
+    if not pm:
+        return env
+    return dict(env or {}, **{k: num(e, env) for k, e in pm.items()})
 
 
 def _py(x):
@@ -47,8 +63,7 @@ def _py(x):
 def _expr(x):
     """JSON number -> what is written into the template (number or expression string with the loop index)"""
     if isinstance(x, list):
-        c, idx, k = x
-        return '%r + %s*%r' % (_py(c), idx, _py(k))
+        return '%r' % _py(x[0]) + ''.join(' + %s*(%r)' % (n, _py(k)) for n, k in terms(x))
     return _py(x)
 
 
@@ -77,14 +92,36 @@ def all_paths(tree, prefix=()):
     return out
 
 
-def build_pt(node, objs=None, path=()):
-    """real template for the JSON node; objs (dict path-tuple -> template object) is filled when given"""
+def build_pt(node, objs=None, path=(), share=None):
+    """real template for the JSON node; objs (dict path-tuple -> template object) is filled when given; share (dict)
+    makes structurally equal sub-trees ONE template object (aliasing: the same object in several places)"""
+    if share is not None:
+        import json
+        key = json.dumps(node, sort_keys=True)
+        if key in share:
+            _fill_objs(node, share[key], objs, path)
+            return share[key][()]
+        local = {}
+        pt = _build_pt(node, local, (), share)
+        share[key] = local
+        _fill_objs(node, local, objs, path)
+        return pt
+    return _build_pt(node, objs, path, None)
+
+
+def _fill_objs(node, local, objs, path):
+    if objs is not None:
+        for p, o in local.items():
+            objs[tuple(path) + tuple(p)] = o
+
+
+def _build_pt(node, objs=None, path=(), share=None):
     from qupulse.pulses import (ConstantPT, TablePT, SequencePT, RepetitionPT, ForLoopPT, MappingPT, TimeReversalPT,
                                 ParallelChannelPT, ArithmeticPT)
     k = node['k']
     ident = node.get('id')
     meas = [(m[0], _expr(m[1]), _expr(m[2])) for m in node.get('meas', [])] or None
-    sub = lambda key, i=0: build_pt(node[key], objs, tuple(path) + (i,))
+    sub = lambda key, i=0: build_pt(node[key], objs, tuple(path) + (i,), share)
     if k == 'const':
         pt = ConstantPT(_expr(node['dur']), {c: _expr(v) for c, v in node['vals'].items()}, identifier=ident,
                         measurements=meas)
@@ -99,7 +136,7 @@ def build_pt(node, objs=None, path=()):
         from qupulse.pulses import AtomicMultiChannelPT
         pt = AtomicMultiChannelPT(*[build_pt(s) for s in node['subs']], identifier=ident, measurements=meas)
     elif k == 'seq':
-        pt = SequencePT(*[build_pt(s, objs, tuple(path) + (i,)) for i, s in enumerate(node['subs'])],
+        pt = SequencePT(*[build_pt(s, objs, tuple(path) + (i,), share) for i, s in enumerate(node['subs'])],
                         identifier=ident, measurements=meas)
     elif k == 'rep':
         pt = RepetitionPT(sub('body'), node['n'], identifier=ident, measurements=meas)
@@ -107,7 +144,9 @@ def build_pt(node, objs=None, path=()):
         pt = ForLoopPT(sub('body'), node['idx'], tuple(node['range']), identifier=ident, measurements=meas)
     elif k == 'map':
         pt = MappingPT(sub('sub'), channel_mapping=dict(node['chmap']), identifier=ident,
-                       measurement_mapping=dict(node['mmap']) if node.get('mmap') else None)
+                       measurement_mapping=dict(node['mmap']) if node.get('mmap') else None,
+                       parameter_mapping={k: str(_expr(e)) for k, e in node['pmap'].items()} if node.get('pmap') else None,
+                       allow_partial_parameter_mapping=True)
     elif k == 'par':
         pt = ParallelChannelPT(sub('sub'), {c: _expr(v) for c, v in node['ov'].items()}, identifier=ident)
     elif k == 'arith':
@@ -212,11 +251,19 @@ def resolve_S(tree, S, objs):
     return out
 
 
-def run_options(tree, S, G, step):
-    """-> observation of create_program(to_single_waveform=S, global_transformation=G)"""
-    objs = {}
+def py_params(params):
+    return {k: _py(v) for k, v in (params or {}).items()}
+
+
+def run_options(tree, S, G, step, params=None, share=False, built=None):
+    """-> observation of create_program(parameters=params, to_single_waveform=S, global_transformation=G); `built` =
+    (template, objs) of an earlier call: the SAME template objects are compiled again"""
     with warnings.catch_warnings():
         warnings.simplefilter('ignore')
-        pt = build_pt(tree, objs)
-        prog = pt.create_program(to_single_waveform=resolve_S(tree, S, objs), global_transformation=build_trafo(G))
+        if built is None:
+            objs = {}
+            built = (build_pt(tree, objs, share={} if share else None), objs)
+        pt, objs = built
+        prog = pt.create_program(parameters=py_params(params), to_single_waveform=resolve_S(tree, S, objs),
+                                 global_transformation=build_trafo(G))
         return observe(prog, step)
